@@ -109,6 +109,31 @@ def run(tier, replay_file=None):
     sets.append((hl, "shared"))
     sets.append((hb[::max(1, len(hb) // (40 if quick else 400))], "shared"))
     R.cov["shared_model_object_histories"] = len(sets[-1][0]) + len(sets[-2][0])
+    # a server with an external state adapter: instance i1 (short timeout, no session) is swept from memory, then a request names
+    # it (a miss: i1 alone comes back from the store) while i2 is in a session with its own settings - i2 goes on undisturbed.
+    # Every history Start i1, Start i2, Begin i2, Step i2, Tick, Metrics, <request to i1>, Step i2, Results i2.
+    cm = dict(consts('{"i1","i2"}', 4, kv='{0,3}', sv='{0,4}'), Adapter="TRUE", Timeouts='{2,9}', Ticks='{3}', MaxNow='100', Scen='{"base"}',
+              Ops='{"Start","Begin","Step","Results","KeepAlive","Metrics","Tick"}')
+    MISS = ('MC_Miss == LET n == Len(hist\') h == hist\'[n] IN\n'
+            '   /\\ (n = 1 => h.op = "Start" /\\ h.i = "i1" /\\ h.to = 2) /\\ (n = 2 => h.op = "Start" /\\ h.i = "i2" /\\ h.to = 9)\n'
+            '   /\\ (n = 3 => h.op = "Begin" /\\ h.i = "i2" /\\ h.status = 200) /\\ (n = 4 => h.op = "Step" /\\ h.i = "i2")\n'
+            '   /\\ (n = 5 => h.op = "Tick") /\\ (n = 6 => h.op = "Metrics") /\\ (n = 7 => h.op \\in {"KeepAlive", "Results", "Begin"} /\\ h.i = "i1")\n'
+            '   /\\ (n = 8 => h.op = "Step" /\\ h.i = "i2") /\\ (n = 9 => h.op = "Results" /\\ h.i = "i2")\n')
+    hm, _ = gen.histories("Server", cm, 9, defs=MISS, extra_cfg={"action_constraints": ["MC_Miss"]})
+    R.cov["store_miss_histories"] = len(hm)
+    if quick:
+        import random as _rm
+        hm = _rm.Random(common.seed() + 2).sample(hm, min(len(hm), 700))
+    for hist in hm:
+        bad = srv_replay.replay(hist, stop=4, adapter=True, base_constants=True)
+        R.add("traces_validated_against_impl")
+        if bad:
+            bad["family"] = "a miss on a swept instance's id next to a live session (external state adapter)"
+            R.violation(bad["clause"], bad)
+            if len(R.violations) >= 10:
+                break
+    if not hm:
+        raise common.Machinery("store-miss family is empty (vacuous)")
     compared = 0
     import time as _time
     t_end = _time.time() + (20 * 60 if quick else 45 * 60)        # the replays of one run are bounded in time (recorded when reached)
